@@ -16,6 +16,7 @@ import Driver.SM2
 import Driver.SM2Fiat
 import Driver.GCM
 import Driver.CTIR
+import Driver.CTIRSM4
 import Driver.GenDump
 import Driver.Listing
 import Driver.Asm
@@ -113,6 +114,7 @@ def handle (line : String) : String :=
   if let some r := Driver.SM2Fiat.handle toks then r else
   if let some r := Driver.GCM.handle toks then r else
   if let some r := Driver.CTIR.handle toks then r else
+  if let some r := Driver.CTIRSM4.handle toks then r else
   if let some r := Driver.GenDump.handle toks then r else
   if let some r := Driver.Listing.handle toks then r else
   if let some r := Driver.Asm.handle toks then r else
